@@ -2,8 +2,10 @@
 """tools/store_seed.py <src dir> <seed id> <property> <caught_initially: yes|no> [note]
 copies a confirmed seeded change into /verif/seeded/<id>/ and records which checks detect it now."""
 import json, os, re, shutil, subprocess, sys
-src, sid, prop, initially = sys.argv[1:5]
-note = sys.argv[5] if len(sys.argv) > 5 else ""
+args = [a for a in sys.argv[1:] if not a.startswith("--log=")]
+logs = [a[6:] for a in sys.argv[1:] if a.startswith("--log=")]
+src, sid, prop, initially = args[0:4]
+note = args[4] if len(args) > 4 else ""
 dst = os.path.join("/verif/seeded", sid)
 os.makedirs(dst, exist_ok=True)
 for fn in os.listdir(src):
@@ -21,7 +23,15 @@ for log in sorted(glob.glob("/tmp/seed/confirm*.log")):
                 continue
             if j.get("seed") == src.rstrip("/"):
                 conf = j
-out = subprocess.run(["/verif/tools/seedrun.sh", os.path.join(src, "patch.diff")], stdout=subprocess.PIPE, stderr=subprocess.STDOUT).stdout.decode()
+if logs:
+    # output of an earlier tools/run_seeds_dir.sh run: take this seed's section
+    txt = open(logs[0]).read()
+    key = "#### " + src.rstrip("/") + "\n"
+    out = txt.split(key, 1)[1].split("#### ", 1)[0] if key in txt else ""
+    if key not in txt:
+        sys.exit("no section for %s in %s" % (src, logs[0]))
+else:
+    out = subprocess.run(["/verif/tools/seedrun.sh", os.path.join(src, "patch.diff")], stdout=subprocess.PIPE, stderr=subprocess.STDOUT).stdout.decode()
 det = []
 cur = None
 for l in out.splitlines():
